@@ -6,5 +6,9 @@ export CARGO_NET_OFFLINE=true
 cd "$HERE/harness"
 [ -f Cargo.lock ] || cp /repo/Cargo.lock Cargo.lock
 cargo build --release --offline --bin vcheck
-mkdir -p "$HERE/evidence" "$HERE/replays"
+# companion binary of C17 (shares the target directory, so dependencies are compiled once)
+cd "$HERE/harness-dyn"
+[ -f Cargo.lock ] || cp "$HERE/harness/Cargo.lock" Cargo.lock
+CARGO_TARGET_DIR="$HERE/harness/target" cargo build --release --offline --bin vdyn || echo "note: vdyn did not build; ./check C17 will rebuild and report"
+mkdir -p "$HERE/evidence" "$HERE/replays" "$HERE/gen"
 echo "setup ok"
